@@ -3,7 +3,6 @@
 package main
 
 import (
-	"io"
 	"bufio"
 	"bytes"
 	"context"
@@ -19,6 +18,7 @@ import (
 	"go/ast"
 	"go/parser"
 	"go/token"
+	"io"
 	"math/big"
 	"net/http/httptest"
 	"os"
@@ -271,12 +271,12 @@ func astRouterFacts(file string) ([]caseFact, int, error) {
 	})
 	// resolve the constants to their string values through the compiled packages
 	consts := map[string]string{
-		"ServiceName_NCHF_CONVERGEDCHARGING":   "nchf-convergedcharging",
-		"ServiceName_NCHF_OFFLINEONLYCHARGING": "nchf-offlineonlycharging",
+		"ServiceName_NCHF_CONVERGEDCHARGING":    "nchf-convergedcharging",
+		"ServiceName_NCHF_OFFLINEONLYCHARGING":  "nchf-offlineonlycharging",
 		"ServiceName_NCHF_SPENDINGLIMITCONTROL": "nchf-spendinglimitcontrol",
-		"ConvergedChargingResUriPrefix":        factory.ConvergedChargingResUriPrefix,
-		"OfflineOnlyChargingResUriPrefix":      factory.OfflineOnlyChargingResUriPrefix,
-		"SpendingLimitControlResUriPrefix":     factory.SpendingLimitControlResUriPrefix,
+		"ConvergedChargingResUriPrefix":         factory.ConvergedChargingResUriPrefix,
+		"OfflineOnlyChargingResUriPrefix":       factory.OfflineOnlyChargingResUriPrefix,
+		"SpendingLimitControlResUriPrefix":      factory.SpendingLimitControlResUriPrefix,
 	}
 	for i := range facts {
 		if v, ok := consts[facts[i].name]; ok {
